@@ -107,6 +107,17 @@ def grid_cases(tier):
         if kind in ("blackman", "kaiser", "interpolated", "composite", "ramp") and not math.isfinite(a) and kind != "ramp":
             continue
         cases.append(("add", chan_spec(max_amp=max_amp, min_avg_amp=min_avg, clock=4, min_dur=16), ("amp", kind, a), ("det", "constant", 0.0), D))
+    # G1b the minimum AVERAGE amplitude next to a duration that is lengthened to the clock: waveforms of fixed area (Blackman, Kaiser)
+    # lose average amplitude when stretched, so the pulse that is SCHEDULED may fall below the minimum although the one given did not
+    for kind, delta, D, mind in itertools.product(AMP_KINDS, [1e-3, 0.02, 0.1, 0.3], [13, 17, 50, 51, 52], [4, 16]):
+        cases.append(("add-avg", chan_spec(min_avg_amp=1.0, clock=4, min_dur=mind), kind, delta, D))
+    # G1c history: the SAME pulse just inside a limit is scheduled first, then a pulse that compares equal to it under Pulse.__eq__'s
+    # tolerance (1e-5 relative) but lies outside the limit - a repetition must be judged on its own, whatever came before
+    for kind, rel, D in itertools.product(["constant", "ramp", "blackman", "interpolated"], [5e-6, 2e-6, -5e-6], [52, 100]):
+        cases.append(("twin", chan_spec(max_amp=L, clock=4, min_dur=16), "max_amp", kind, rel, D))
+        cases.append(("twin", chan_spec(min_avg_amp=1.0, clock=4, min_dur=16), "min_avg", kind, rel, D))
+        cases.append(("twin", chan_spec(max_det=20.0, clock=4, min_dur=16), "max_det", kind, rel, D))
+        cases.append(("twin", chan_spec(clock=4, min_dur=16), "dmm_bottom", kind, rel, D))
     # G2 detuning limits
     M = 20.0
     for max_det, kind, d in itertools.product(
@@ -220,6 +231,80 @@ def grid_case(case):
                 if v2 is False:
                     out.append((f"C01:scheduled-pulse-outside-limits:{why2}", f"{ak}/{dk} duration {D}->{s.tf - s.ti} on {p}"))
             return out + [("@" + ("accepted" if ok else "refused") + ":" + why, "")]
+        if kind == "twin":
+            _, p, lim, wk, rel, D = case
+            from pulser import Pulse
+            from pulser.waveforms import ConstantWaveform
+
+            def mk(scale):
+                """(pulse or detuning waveform, amp samples, det samples) with the limited quantity at `scale` x its limit."""
+                if lim == "max_amp":
+                    a = make_wf(peak_spec(wk, D, p["max_amp"] * scale))
+                    return Pulse(a, ConstantWaveform(D, 0.0), 0.0), a, None
+                if lim == "min_avg":
+                    m = float(np.mean(np.asarray(make_wf(peak_spec(wk, D, 1.0)).samples.as_array(detach=True))))
+                    a = make_wf(peak_spec(wk, D, p["min_avg_amp"] / scale / m))
+                    return Pulse(a, ConstantWaveform(D, 0.0), 0.0), a, None
+                if lim == "max_det":
+                    dwf = make_wf(peak_spec(wk if wk in DET_KINDS else "constant", D, p["max_det"] * scale))
+                    return Pulse(ConstantWaveform(D, 1.0), dwf, 0.0), None, dwf
+                dwf = make_wf(peak_spec(wk if wk in DET_KINDS else "constant", D, -10.0 * scale))
+                return dwf, None, dwf
+
+            try:
+                first, fa, fd = mk(1.0)
+                second, sa, sd = mk(1.0 + rel)
+            except Exception:
+                return [("@unbuildable", "")]
+            dmm = (-10.0, None, [1.0, 1.0, 1.0]) if lim == "dmm_bottom" else None
+            w = _world(p, bottom_det=-10.0) if dmm else _world(p)
+            seq = w.fresh()
+            seq.declare_channel("g", "rydberg_global")
+            if dmm:
+                seq.config_detuning_map(w.register.define_detuning_map(dict(WEIGHTS["w1"])), "dmm_0")
+            samp = lambda wf, n: np.zeros(n) if wf is None else np.asarray(wf.samples.as_array(detach=True))
+            verdict, why = inside(samp(sa, D) if dmm is None else np.zeros(D), samp(sd, D), D,
+                                  dict(p, max_amp=None, max_det=None) if dmm else p, dmm)
+            if dmm is None and sa is None:
+                verdict, why = inside(np.ones(D), samp(sd, D), D, p)
+            try:
+                seq.add_dmm_detuning(first, "dmm_0") if dmm else seq.add(first, "g")
+            except Exception:
+                return [("@twin-first-refused", "")]
+            try:
+                seq.add_dmm_detuning(second, "dmm_0") if dmm else seq.add(second, "g")
+                ok = True
+            except Exception:
+                ok = False
+            if verdict is False and ok:
+                return [(f"C01:invalid-pulse-accepted-after-its-valid-twin:{why}", f"{wk} at {1 + rel:.7f} x the {lim} limit, right after the same pulse at the limit ({D} ns) on {p}")]
+            if verdict is True and not ok:
+                return [(f"C01:valid-pulse-refused-after-its-twin:{lim}", f"{wk} at {1 + rel:.7f} x the limit after the pulse at the limit")]
+            return [("@twin:" + ("accepted" if ok else "refused") + ":" + str(verdict), "")]
+        if kind == "add-avg":
+            _, p, ak, delta, D = case
+            from pulser import Pulse
+            from pulser.waveforms import ConstantWaveform
+
+            try:
+                m = float(np.mean(np.asarray(make_wf(peak_spec(ak, D, 1.0)).samples.as_array(detach=True))))
+                amp_wf = make_wf(peak_spec(ak, D, (1.0 + delta) * p["min_avg_amp"] / m))
+                pulse = Pulse(amp_wf, ConstantWaveform(D, 0.0), 0.0)
+            except Exception:
+                return [("@unbuildable", "")]
+            w = _world(p)
+            seq = w.fresh()
+            seq.declare_channel("g", "rydberg_global")
+            try:
+                seq.add(pulse, "g")
+            except Exception:
+                return [("@refused:avg", "")]
+            sp = _sched_pulses(seq, "g")[-1]
+            v2, why2 = inside(sp.pulse.amp, sp.pulse.det, sp.tf - sp.ti, p)
+            if v2 is False:
+                return [(f"C01:scheduled-pulse-outside-limits:{why2}", f"{ak} of average {(1.0 + delta) * p['min_avg_amp']:.4g} at {D} ns, scheduled with "
+                         f"{sp.tf - sp.ti} ns and average {float(np.mean(sp.pulse.amp)):.4g} (minimum average {p['min_avg_amp']}) on {p}")]
+            return [("@accepted:avg", "")]
         if kind == "add_dmm":
             _, p, (bottom, total, wkey), (_, dk, d), D = case
             try:
